@@ -144,3 +144,12 @@ for mode in ("both",):
 register(Unit(P, "GC-RG/_load_inflight_protection", gc.h_load_inflight(False), functions=[f"{gc.GC}:GarbageCollector._load_inflight_protection"], replay=gc._replay_markers))
 register(Unit(P, "GC-RG/_marker_target", gc.h_marker_target(False), functions=[f"{gc.GC}:GarbageCollector._marker_target"], replay=gc._replay_markers))
 register(Unit(P, "GC-RG/collect", gc.h_collect(False), functions=[f"{gc.GC}:GarbageCollector.collect"], replay=_replay_gcrace, reg_factory=gc.registry))
+
+# every single delete of the collector (DELETE-SAFE) - hypotheses of lemma STABLE
+from pyvc.runner import units_of  # noqa: E402
+for _u in list(units_of("C05")):
+    if _u.name.startswith("GC-PREFIX"):
+        register(Unit(P, "GC-RG/" + _u.name, _u.harness, functions=_u.functions, replay=_replay_gcrace, reg_factory=_u.reg_factory or gc.registry, z3_timeout_ms=_u.z3_timeout_ms))
+from contracts import lemmas as _L  # noqa: E402
+register(Unit(P, "LEMMA/STABLE", _L.h_stable, functions=[], replay=_replay_gcrace,
+              uses=_L.STABLE_USES + ["DELETE-SAFE:deleted-file-is-not-reachable-or-protected", "DELETE-SAFE:deleted-file-is-older-than-grace"]))
